@@ -229,6 +229,29 @@ func checkMergeIndexesPerEntity(c *Ctx, rule string) {
 			if strings.HasSuffix(cl.Name, "Index.IndexOne") && enclosingLoopHeader(cl.Block()) != nil {
 				one++
 			}
+			// the indexing step extracted into a same-package helper called inside the loop
+			isOne := func(i ssa.Instruction) bool {
+				ci, ok := i.(ssa.CallInstruction)
+				if !ok {
+					return false
+				}
+				n, _ := callName(ci.Common())
+				return strings.HasSuffix(n, "Index.IndexOne")
+			}
+			isBatch := func(i ssa.Instruction) bool {
+				ci, ok := i.(ssa.CallInstruction)
+				if !ok {
+					return false
+				}
+				n, _ := callName(ci.Common())
+				return strings.HasSuffix(n, "Index.IndexBatch")
+			}
+			if enclosingLoopHeader(cl.Block()) != nil && viaHelper(w, cl.Instr, isOne, false) {
+				one++
+			}
+			if viaHelper(w, cl.Instr, isBatch, false) {
+				batch = w.InstrPos(cl.Instr)
+			}
 		}
 	}
 	c.Sites++
@@ -504,7 +527,7 @@ func checkWhoRemovesRefs(c *Ctx, rule string) {
 			}
 			name := funcName(root)
 			c.seeFn(name)
-			ok := name == "entity/dag.Remove" || name == "entities/identity.Remove"
+			ok := onlyReachedFrom(w, root, map[string]bool{"entity/dag.Remove": true, "entities/identity.Remove": true}, map[*ssa.Function]bool{})
 			c.Check(ok, rule, name+":removes-a-ref", w.InstrPos(cl.Instr), "removal of an entity",
 				name+" removes a ref although nobody asked for a removal: applied to refs under refs/remotes/<remote>/<namespace>/ this deletes the remote-tracking branches of host branches that happen to live there (bugs/1234-crash-on-start)")
 		}
@@ -655,4 +678,46 @@ func checkSinceSelectsIssuesOnly(c *Ctx, rule string) {
 	c.Sites += n
 	c.Check(n >= 1 && len(bad) == 0, rule, "importMediator.since:query-variable-only", "bridge/github/import_mediator.go", fmt.Sprintf("%d reads, all handed to a query-variables constructor", n),
 		"the start time of the import is used outside the issue query ("+strings.Join(bad, "; ")+"): events older than the previous import are filtered out of the relayed history, and the importer — which takes the first edit listed for a text as its creation — drops the first new edit of every text imported earlier, silently and for good (the cursor advances)")
+}
+
+// onlyReachedFrom: f is one of the allowed functions, or a same-package helper every static caller of which
+// (transitively) is — extracting a step into a helper does not change who performs it.
+func onlyReachedFrom(w *World, f *ssa.Function, allowed map[string]bool, seen map[*ssa.Function]bool) bool {
+	if allowed[funcName(f)] {
+		return true
+	}
+	if seen[f] {
+		return true
+	}
+	seen[f] = true
+	if f.Object() != nil && f.Object().Exported() {
+		return false
+	}
+	n := 0
+	for _, g := range w.ModFns {
+		if w.isTestHelper(g) || fnPkgPath(g) != fnPkgPath(f) {
+			continue
+		}
+		for _, b := range g.Blocks {
+			for _, ins := range b.Instrs {
+				ci, ok := ins.(ssa.CallInstruction)
+				if !ok {
+					continue
+				}
+				cal := ci.Common().StaticCallee()
+				if cal == nil || bodyOf(cal) != f {
+					continue
+				}
+				n++
+				root := bodyOf(g)
+				for root.Parent() != nil {
+					root = root.Parent()
+				}
+				if !onlyReachedFrom(w, root, allowed, seen) {
+					return false
+				}
+			}
+		}
+	}
+	return n > 0
 }
